@@ -318,12 +318,29 @@ def strip_generics(path):
     return "".join(out)
 
 
+class _Bodies(dict):
+    """the body table; remembers which bodies a rule looked up by name (for the coverage report of
+    tools/coverage.py: functions no semantic rule ever inspects are blind spots)"""
+
+    def __init__(self):
+        super().__init__()
+        self.touched = set()
+        self.record = True
+
+    def get(self, k, d=None):
+        if self.record and k in self:
+            self.touched.add(k)
+        return super().get(k, d)
+
+    # __getitem__ is what loops over all bodies use; only named look-ups (`get`) count as "a rule inspects this function"
+
+
 class Facts:
     def __init__(self, doc):
         self.doc = doc
         self.hash = doc.get("_hash")
         self.repo = doc.get("_repo")
-        self.bodies = {}
+        self.bodies = _Bodies()
         for raw in doc["bodies"]:
             b = Body(raw, self)
             self.bodies[b.path] = b
